@@ -430,6 +430,50 @@ def dtab_scope(ctx, prog, R="C03.DTAB-scope"):
     ctx.floor(R, n, 6)
 
 
+def dom_invalid_last(ctx, prog):
+    R = "C03.DOM-invalid-last"
+    ctx.rule(R, "invalidate_node clears is_valid only after everything that needs the kind payload: Node::kind() "
+                "returns None for an invalid node, so remove_children and (for a bind-main node) the invalidation of "
+                "the nodes created on its rhs must not be reachable from the store")
+    F = ctx.need_fn(R, q.NODE_IMPL + "invalidate_node")
+    if F is None:
+        return
+    c = F.cfg()
+    stores = [a for a in writes_of(prog, "incremental::node::Node.is_valid") if a.fn.path == F.path and a.kind == "set"]
+    needs = q.calls_in(F, "Node::kind", "ErasedNode>::remove_children", "Node::remove_children", "ErasedNode>::foreach_child",
+                       "invalidate_nodes_created_on_rhs")
+    inr = q.calls_in(F, "invalidate_nodes_created_on_rhs")
+    for t in needs:
+        ctx.site(R, F, "bb%d %s" % (t.bb, q.short_path(t.callee)))
+    if len(stores) != 1 or not inr:
+        ctx.missing(R, "is_valid store / invalidate_nodes_created_on_rhs in invalidate_node")
+        return
+    st = stores[0]
+    after = [t for t in needs if t.bb in c.reach({st.bb}) and t.bb != st.bb]
+    if after:
+        ctx.fail(R, "order", "%s runs after is_valid was cleared: kind() already hides the payload, so for a nested "
+                 "bind the nodes created by the inner closure are never invalidated and keep running with stale "
+                 "captured values" % ", ".join(sorted({q.short_path(t.callee) for t in after})), fn=F, span=after[0].span)
+    elif c.path([0], c.exits, avoid={st.bb}) is not None and not _only_early_return(F, c, st.bb):
+        ctx.fail(R, "order", "invalidate_node can return without clearing is_valid", fn=F)
+    else:
+        ctx.ok(R, "order")
+    ctx.floor(R, len(needs), 3)
+
+
+def _only_early_return(F, c, store_bb):
+    """Paths that avoid the store are exactly the `already invalid` early return (guarded by is_valid())."""
+    p = c.path([0], c.exits, avoid={store_bb})
+    if p is None:
+        return True
+    calls = [F.term(b) for b in p if F.term(b).is_call]
+    names = {q.short_path(t.callee) for t in calls if not q.is_tracing(t)}
+    return all(n.endswith("is_valid") or "Cell" in n or "tracing" in n for n in names)
+
+
+dom_invalid_last.rule_id = "C03.DOM-invalid-last"
+
+
 def guard_bypass(ctx, prog):
     from .c02 import guard_bypass as gb
     gb(ctx, prog, "C03.GUARD-bypass")
@@ -447,4 +491,4 @@ for _f, _id in ((pdom_register, "C03.PDOM-register"), (data_scope, "C03.DATA-sco
 
 dtab_scope.rule_id = "C03.DTAB-scope"
 
-RULES = [pdom_register, data_scope, dom_lhs_change, dtab_invalid, guard_bypass, can_recompute, dtab_scope]
+RULES = [pdom_register, data_scope, dom_lhs_change, dtab_invalid, guard_bypass, can_recompute, dtab_scope, dom_invalid_last]
